@@ -550,7 +550,7 @@ fn main() {
                 }
             }
             "fixed_roundtrip" => do_fixed_roundtrip(&op),
-            "scenario" => "{\"ok\":true}".to_string(),
+            "scenario" | "config" => "{\"ok\":true}".to_string(),
             _ => "{\"bad\":\"op\"}".to_string(),
         };
         writeln!(out, "{{\"i\":{},\"ans\":{}}}", ln, ans).ok();
